@@ -92,7 +92,10 @@ func (c *Client) Shutdown() {
 	}
 }
 
-func (c *Client) signalOnline() {
+// signalOnline signals the online status and returns the requests that must
+// be sent again to resuscitate operations. The caller sends them when the
+// writer is running, as there may be more of them than the send queue holds.
+func (c *Client) signalOnline() (resuscitate []*Message) {
 	c.Lock()
 	defer c.Unlock()
 	if c.lastSignal == offlineSignal {
@@ -104,12 +107,13 @@ func (c *Client) signalOnline() {
 		// resend unsent request
 		for _, op := range c.operations {
 			if op.resuscitationEnabled.IsSet() && op.request != nil && op.request.sent != nil && op.request.sent.SetToIf(true, false) {
-				op.client.send <- op.request
+				resuscitate = append(resuscitate, op.request)
 				log.Infof("client: resuscitated %s %s %s", op.request.OpID, op.request.Type, op.request.Key)
 			}
 		}
 
 	}
+	return resuscitate
 }
 
 func (c *Client) signalOffline() {
